@@ -5,6 +5,7 @@
    record (pairs, candidates, selection, liveness timestamps, pending list, counters) with no output. *)
 From Coq Require Import ZArith Bool List.
 From Ice Require Import Model.AgentTypes Model.AgentCore Gen.Consts Proofs.AgentC02 Proofs.AgentC02Hist.
+From Ice Require Import Gen.Lifecycle Proofs.AgentGenRules.
 Import ListNotations.
 Local Open Scope Z_scope.
 
@@ -91,3 +92,15 @@ Example C02_example_erase :
   let ops := [AddLocal l; AddRemote r; Start false 3 4; InStun 1 src badkey; InStun 1 src good; InStun 1 src err; Tick; InStun 1 src badkey] in
   erase cfg (init 1 2) ops = [AddLocal l; AddRemote r; Start false 3 4; InStun 1 src good; Tick].
 Proof. vm_compute. reflexivity. Qed.
+
+(* ---- the two decision functions of this property that the model takes from the code (regenerated from /repo on every
+   run): what they compute is pinned here, so an edit of the Go function that changes the rule breaks these proofs *)
+Theorem C02_response_symmetry_rule : forall q l src,
+  response_symmetric q l src = true <-> (q_net q = c_net l /\ q_dst q = src).
+Proof. exact response_symmetry_rule. Qed.
+Print Assumptions C02_response_symmetry_rule.
+
+Theorem C02_inbound_filter_rule : forall method class,
+  canHandleInbound method class = (method =? 1) && ((class =? 2) || (class =? 0) || (class =? 1)).
+Proof. exact inbound_filter_rule. Qed.
+Print Assumptions C02_inbound_filter_rule.
